@@ -232,6 +232,37 @@ class Gen(object):
         return ev0("Crash")
 
 
+def make_prefill(rng, prof):
+    """names to claim up front so that allocate meets a chosen occupancy"""
+    spec = prof["prefill_spec"]
+    app = prof["apps"][0]
+    out = []
+    if spec.get("spread"):
+        # n (app, name) pairs over ALL apps: every name of the class held by somebody, no app holding all
+        apps = list(prof["apps"])
+        for (cls, lo, hi) in (("class1", 1, 10), ("class2", 10, 100)):
+            n = rng.choice(spec.get(cls, [0]))
+            names = [str(x) for x in range(lo, hi)]
+            pairs = [(apps[k % len(apps)], nm) for k, nm in enumerate(names)]       # one holder each
+            extra = [(a, nm) for nm in names for a in apps if (a, nm) not in pairs]
+            rng.shuffle(extra)
+            out += (pairs + extra)[:n] if n >= len(pairs) else rng.sample(pairs, n)
+        rng.shuffle(out)
+        return out
+    n1 = rng.choice(spec.get("class1", [0]))
+    out += [(app, str(n)) for n in rng.sample(range(1, 10), n1)]
+    n2 = rng.choice(spec.get("class2", [0]))
+    out += [(app, str(n)) for n in rng.sample(range(10, 100), n2)]
+    n3 = rng.choice(spec.get("class3", [0]))
+    out += [(app, str(n)) for n in rng.sample(range(100, 1000), n3)]
+    for extra in spec.get("odd", []):
+        if rng.random() < 0.5:
+            out.append((app, extra))
+    for extra in spec.get("always", []):
+        out.append((app, extra))
+    return out
+
+
 def backfill(e, obs, gen_before, drv):
     """Fill in what only the execution can tell: the generated mailbox id and
     the random pick of allocate, so that the event is fully determined."""
@@ -344,7 +375,7 @@ SCRIPTS = {
     "receiver": ["bind", "claim", "open", "add", "release", "add", "close"],
     "lazy": ["bind", "claim", "open", "add", "close"],               # never releases
     "norelease2": ["bind", "claim", "open", "close", "release"],      # odd order
-    "intruder": ["bind", "claim", "claim!", "open", "claim!", "open!", "add"],   # "!" = on a fresh connection
+    "intruder": ["bind", "claim", "claim", "claim!", "open", "claim!", "open!", "add"],   # "!" = on a fresh connection
     "standalone": ["bind", "open", "add", "add", "close"],
     "lister": ["bind", "list", "allocate", "list", "release", "list"],
 }
@@ -617,6 +648,11 @@ def run_scripted(rng, drv, profile, tid):
     g = Gen(rng, drv, p)
 
     def do(e):
+        if e["k"] in ("Cmd", "Drop") and e["c"] not in drv.protos:
+            # the connection died of an internal failure of its previous command
+            return dict(out=[], err=ABSENT)
+        if e["k"] == "Connect" and e["c"] in drv.protos:
+            return dict(out=[], err=ABSENT)
         gen_before = drv.tokens.gen
         o = drv.step(e)
         backfill(e, o, gen_before, drv)
